@@ -33,7 +33,8 @@ package route
 //@ define nodeOK(n *baseTree) bool =
 //@     (forall k int :: 0 <= k && k < len(n.subtrees) ==> isTreeChild(n.subtrees[k]) && nodeOf(n.subtrees[k]).segment != nil) &&
 //@     (forall k int :: 0 <= k && k < len(n.leaves) ==> n.leaves[k] != nil && live(leafBase(n.leaves[k]))) &&
-//@     (n.parent == nil || (isTree(n.parent) && n.segment != nil))
+//@     (n.parent == nil || (isTree(n.parent) && n.segment != nil)) &&
+//@     (n.segment != nil ==> !n.segment.Optional)
 
 //@ define optLast(r *Route) bool = forall k int :: 0 <= k && k < len(r.Segments) - 1 ==> !r.Segments[k].Optional
 //@ define leafOK(l *baseLeaf) bool = l.handler != nil && l.route != nil && l.segment != nil && l.parent != nil && routeWF(l.route) && optLast(l.route)
@@ -419,7 +420,7 @@ package route
 //@ func newTree
 //@   props C08 C01 C02
 //@   modifies s.scratchIdx
-//@   requires treeWF() && isTree(parent) && bareOK(parent) && s != nil
+//@   requires treeWF() && isTree(parent) && bareOK(parent) && s != nil && !s.Optional
 //@   ensures treeWF()
 //@   ensures len(s.Elements) == 0 ==> result1 != nil
 //@   ensures result1 == nil && style(result0) == 4 ==> !old(allAnc(parent))
@@ -446,7 +447,17 @@ package route
 
 //@ define routeWF(r *Route) bool = r != nil && len(r.Segments) >= 1 && (forall k int :: 0 <= k && k < len(r.Segments) ==> r.Segments[k] != nil)
 
+// termination of registration: addNextSegment -> addSubtree -> addNextSegment one segment further; the short form of an
+// optional route is added by one nested addLeaf with a segment that is not optional
+// the text two last segments are compared by: the canonical text without the optional marker (so that the long form of
+// an optional route duplicates the same route without the marker)
+//@ define segText(s *Segment) string = "/" + strings.TrimPrefix(segStr(s)[1:], "?")
 //@ func addLeaf
+//@   decreases ite(s.Optional, 1, 0)
+// accepted only if no leaf that was in the list has the same text (the same route is refused, short / long form included)
+//@   ensures[C08] result1 == nil ==> forall k int :: 0 <= k && k < len(old(nodeOf(t).leaves)) ==> segText(leafBase(old(nodeOf(t).leaves[k])).segment) != segText(s)
+//@   loop 0 invariant[C08] leaves == old(nodeOf(t).leaves) && (forall k int :: 0 <= k && k < len(leaves) ==> leaves[k] == old(nodeOf(t).leaves[k]))
+//@   loop 0 invariant[C08] forall k int :: 0 <= k && k <= rangeindex ==> segText(leafBase(leaves[k]).segment) != segText(s)
 //@   partial-anchors
 //@   props C08 C01
 // a failed registration leaves every list of the tree as it was (nothing dangling gets in the way of a later registration)
@@ -472,6 +483,7 @@ package route
 //@   loop 1 invariant treeWF() && 0 <= i && i <= len(leaves)
 
 //@ func addSubtree
+//@   decreases 2 * (len(r.Segments) - next) + 2
 //@   partial-anchors
 //@   props C08 C01
 // a failed registration leaves every list of the tree as it was (nothing dangling gets in the way of a later registration)
@@ -500,6 +512,7 @@ package route
 //@   loop 1 invariant treeWF() && 0 <= i && i <= len(subtrees)
 
 //@ func addNextSegment
+//@   decreases 2 * (len(r.Segments) - next) + 3
 //@   props C08 C01
 // a failed registration leaves every list of the tree as it was (nothing dangling gets in the way of a later registration)
 //@   ensures[C08,C01] result1 != nil ==> forall n *baseTree :: old(live(n)) ==> n.subtrees == old(n.subtrees) && n.leaves == old(n.leaves)
